@@ -166,6 +166,7 @@ func (g *InterProceduralFlowGraph) BuildGraph() {
 	if summariesFile != nil {
 		// Read-only operation on summaries
 		go func() {
+			verifGate("summaries-writer-start")
 			for _, summary := range g.Summaries {
 				if summary == nil {
 					continue
@@ -174,6 +175,7 @@ func (g *InterProceduralFlowGraph) BuildGraph() {
 				summary.Print(false, summariesFile)
 				_, _ = summariesFile.WriteString("\n")
 			}
+			verifGate("summaries-writer-end")
 		}()
 	}
 
